@@ -150,10 +150,10 @@ def contains(t, pred):
 
 class State:
     __slots__ = ('store', 'heap', 'cond', 'trace', 'falsy', 'truthy',
-                 'cbase')
+                 'cbase', 'cut')
 
     def __init__(self, store=None, heap=None, cond=(), trace=(),
-                 falsy=frozenset(), truthy=frozenset(), cbase=0):
+                 falsy=frozenset(), truthy=frozenset(), cbase=0, cut=None):
         self.store = store if store is not None else {}
         self.heap = heap if heap is not None else {}
         self.cond = cond
@@ -163,10 +163,13 @@ class State:
         # facts in cond[:cbase] about attribute reads were established
         # before a loop whose body calls out: they are not reused inside it
         self.cbase = cbase
+        # term -> index into cond: the container denoted by the term was
+        # mutated in place there, earlier truthiness facts about it are void
+        self.cut = cut if cut is not None else {}
 
     def copy(self):
         return State(dict(self.store), dict(self.heap), self.cond, self.trace,
-                     self.falsy, self.truthy, self.cbase)
+                     self.falsy, self.truthy, self.cbase, dict(self.cut))
 
     def emit(self, ev):
         self.trace = self.trace + (ev,)
@@ -319,6 +322,8 @@ def truth(t, st=None):
         if t in st.truthy:
             return True
         base = st.cbase if st.cbase and _reads_attr(t) else 0
+        if st.cut and t in st.cut:
+            base = max(base, st.cut[t])
         for c, pol in st.cond[base:]:
             if c == t:
                 return pol
@@ -2097,6 +2102,12 @@ class Interp:
             return None
         recv, meth = fn[1], fn[2]
         rnode = n.func.value
+        if meth in _MUTATORS and kind(recv) not in ('list', 'dict', 'const'):
+            # in-place mutation of an opaque container: what the path knew
+            # about its emptiness is no longer true
+            st.truthy = st.truthy - {recv}
+            st.falsy = st.falsy - {recv}
+            st.cut[recv] = len(st.cond)
         if meth in ('append', 'extend') and len(args) == 1 and \
                 kind(recv) in ('sub', 'call', 'loopout', 'param') and \
                 self._slot_exists(rnode, st) and \
